@@ -127,7 +127,24 @@ SYMBOLS: Dict[str, dict] = {
     "unknown": dict(node=_n("VNoSuchProcessor"), kind="invalid", error="UnknownProcessorError", params=[], cfg={}, reads=[]),
 }
 
-ALL = [s for s in SYMBOLS if s not in ("interrupt", "abort", "sysexit")]  # KeyboardInterrupt-class aborts are exercised by C06 only
+# ---- value menu at CONFIGURATION positions: every YAML-representable kind of value as a node parameter -------------------
+YAML_MENU: Dict[str, Any] = {"int": 5, "true": True, "false": False, "negzero": -0.0, "inf": float("inf"), "neginf": float("-inf"), "nan": float("nan"),
+                             "numeric-string": "5.0", "empty-string": "", "list": [1.0], "bigint": 10 ** 20, "null": None, "mapping": {"k": 1.0}}
+MENU_SYMBOLS: List[str] = []
+for _base, _param in (("src", "value"), ("mul3", "factor"), ("two_cfg", "addend"), ("kwmul3", "factor")):
+    for _vn, _v in YAML_MENU.items():
+        import copy as _copy
+
+        _sym = _copy.deepcopy(SYMBOLS[_base])
+        _sym["node"]["parameters"][_param] = _copy.deepcopy(_v)
+        _sym["cfg"][_param] = _copy.deepcopy(_v)
+        SYMBOLS[f"{_base}@{_vn}"] = _sym
+        MENU_SYMBOLS.append(f"{_base}@{_vn}")
+# short programs around each of them
+MENU_PROGS: List[Tuple[str, ...]] = [((m,) if m.startswith("src@") else ("src", m)) for m in MENU_SYMBOLS] + \
+    [((m, "probe_r") if m.startswith("src@") else ("src", m, "probe_r")) for m in MENU_SYMBOLS]
+
+ALL = [s for s in SYMBOLS if s not in ("interrupt", "abort", "sysexit") and "@" not in s]  # KeyboardInterrupt-class aborts are exercised by C06 only
 # one representative per kind
 PRIME = ["src", "srcdef", "paysrc", "mul", "muldef", "two", "ctxw", "fail", "sum", "probe_factor", "gainprobe",
          "ren_r_factor", "del_factor", "tmpl_a", "slice_mul", "sweep_op", "sink_ctx", "bogus"]
